@@ -89,6 +89,14 @@ def p_getitem_range(x, i, j):
     return x[i:j]
 
 
+def p_range_then_at(x, i, j, k):
+    return x[i:j][k]
+
+
+def p_range_then_len(x, i, j):
+    return len(x[i:j])
+
+
 def p_sum_skipnone(x):
     out = 0.0
     for y in x:
@@ -299,6 +307,8 @@ PROGRAMS = {
     "return_arg": (p_return_arg, "S L LL R T LR U", [], None, False),
     "getitem_at": (p_getitem_at, "S L LL R T LR U", ["i"], None, False),
     "getitem_range": (p_getitem_range, "S L LL R T LR U", ["r", "r"], None, False),
+    "range_then_at": (p_range_then_at, "S L LL R T LR", ["r", "r", "j"], None, False),
+    "range_then_len": (p_range_then_len, "S L LL R T LR U", ["r", "r"], None, False),
     "sum_skipnone": (p_sum_skipnone, "S", [], None, False),
     "count_none": (p_count_none, "S L", [], None, False),
     "contains": (p_contains, "S", ["v"], None, False),
